@@ -436,7 +436,7 @@ def gen_ann(r, d, top=True):
         n = r.randint(2, 3); ms = []
         for _ in range(n):
             t = gen_ann(r, d - 1, top=False)
-            if t[0] in ('union', 'any') or t in ms: continue
+            if t[0] == 'union' or t in ms or (t[0] == 'any' and r.random() < 0.5): continue
             ms.append(t)
         if len(ms) < 2: return gen_ann(r, d, top)
         sp = r.choice(['union', 'pipe', 'optional'])
